@@ -571,6 +571,17 @@ def _acc(cls):
     return P, Q, t, u, v
 
 
+class _Differ(Exception):
+    pass
+
+
+def _same(q1, q2, cls):
+    a, b = q1.get_sql(prog.sql_context(cls)), q2.get_sql(prog.sql_context(cls))
+    if a != b:
+        raise _Differ("the two call orders render %r and %r" % (a, b))
+    return q1
+
+
 ACCUMULATING = {
     # name -> builder(cls) -> statement in which the clause was called twice, first with the marker m1q, then with m2q
     "where": lambda c: (lambda P, Q, t, u, v: Q.from_(t).select(t.a).where(t.m1q == 1).where(t.m2q == 2))(*_acc(c)),
@@ -610,6 +621,9 @@ ACCUMULATING = {
     "where_case_first": lambda c: (lambda P, Q, t, u, v: Q.from_(t).select(t.a).where(P.Case().when(t.m1q == 1, True).else_(False)).where(t.m2q == 2))(*_acc(c)),
     "having_case_first": lambda c: (lambda P, Q, t, u, v: Q.from_(t).select(t.a).groupby(t.a).having(P.Case().when(t.m1q == 1, True).else_(False)).having(t.m2q == 2))(*_acc(c)),
     "where_function_first": lambda c: (lambda P, Q, t, u, v: Q.from_(t).select(t.a).where(P.functions.Coalesce(t.m1q, 0)).where(t.m2q == 2))(*_acc(c)),
+    # ORDER BY given as a column NAME on an UPDATE (rendered by the MySQL, SQLite and PostgreSQL builders): the same text whether from_() comes before or after
+    "update_orderby_name": lambda c: (lambda P, Q, t, u, v: Q.update(t).set(t.a, 1).orderby("m1q").limit(1))(*_acc(c)),
+    "update_orderby_name_then_from": lambda c: (lambda P, Q, t, u, v: _same(Q.update(t).set(t.a, 1).orderby("m1q").from_(u).limit(1), Q.update(t).set(t.a, 1).from_(u).orderby("m1q").limit(1), c))(*_acc(c)),
     # a constraint call without columns adds nothing (primary_key() is like that): no empty UNIQUE ()
     "create_unique_then_empty": lambda c: (lambda P, Q, t, u, v: Q.create_table("n").columns(P.Column("m1q", "INT")).unique("m1q").unique())(*_acc(c)),
     "create_unique_empty_alone": lambda c: (lambda P, Q, t, u, v: Q.create_table("n").columns(P.Column("m1q", "INT")).unique())(*_acc(c)),
@@ -619,8 +633,8 @@ ACCUMULATING = {
     "agg_filter_then_empty": lambda c: (lambda P, Q, t, u, v: Q.from_(t).select(P.functions.Sum(t.a).filter(t.m1q == 1).filter(P.Criterion.any([]))))(*_acc(c)),
     "agg_filter_empty_alone": lambda c: (lambda P, Q, t, u, v: Q.from_(t).select(P.functions.Sum(t.m1q).filter(P.Criterion.all([]))))(*_acc(c)),
 }
-CLASS_ONLY = {"returning": ("postgresql",), "distinct_on": ("postgresql",), "returning_not_then_star": ("postgresql",), "returning_json_then_star": ("postgresql",)}
-FIRST_ONLY = {"create_unique_then_empty", "create_unique_empty_alone", "select_fn_then_star", "select_aliased_then_star", "select_not_then_table_star", "select_criterion_then_table_star", "returning_not_then_star",
+CLASS_ONLY = {"update_orderby_name": ("mysql", "sqlite", "postgresql"), "update_orderby_name_then_from": ("mysql", "sqlite", "postgresql"), "returning": ("postgresql",), "distinct_on": ("postgresql",), "returning_not_then_star": ("postgresql",), "returning_json_then_star": ("postgresql",)}
+FIRST_ONLY = {"update_orderby_name", "update_orderby_name_then_from", "create_unique_then_empty", "create_unique_empty_alone", "select_fn_then_star", "select_aliased_then_star", "select_not_then_table_star", "select_criterion_then_table_star", "returning_not_then_star",
               "returning_json_then_star", "having_then_empty", "having_empty_alone", "agg_filter_then_empty", "agg_filter_empty_alone"}
 
 
